@@ -1,0 +1,31 @@
+//go:build verif
+
+package peering
+
+import (
+	"net"
+
+	"github.com/mycoria/mycoria/m"
+	"github.com/mycoria/mycoria/state"
+)
+
+// VerifSetupLink runs the real link setup (handshake, label assignment,
+// registration, worker start) over a caller-supplied connection.
+// Verification hook: only compiled with the "verif" build tag.
+func (p *Peering) VerifSetupLink(conn net.Conn, peeringURL *m.PeeringURL, outgoing bool) (Link, error) {
+	link, err := newLinkBase(conn, peeringURL, outgoing, p).handleSetup(p.mgr)
+	if err != nil {
+		return nil, err
+	}
+	return link, nil
+}
+
+// VerifLinkEncSession returns the link-layer encryption session of a link
+// created by the real link setup (nil for other link implementations).
+// Verification hook: only compiled with the "verif" build tag.
+func VerifLinkEncSession(l Link) *state.EncryptionSession {
+	if lb, ok := l.(*LinkBase); ok {
+		return lb.encSession
+	}
+	return nil
+}
